@@ -12,7 +12,7 @@ CHECKS = {
    "SQLite only (no MySQL/PostgreSQL server in the sandbox); the feature catalogue bounds the schemas; the CLI slice is covered by the CLI-driven checks."),
  "C02": ("exploration",
    "bounded-exhaustive enumeration of edit sets over independently built schema graphs for the three real differs, judged by ground-truth change descriptors the generator knows",
-   "For MySQL, PostgreSQL and SQLite differs in the CLI's normalized mode: every elementary edit of a ~45-edit catalogue (one per change kind / kind bit the community build emits, plus multi-bit combinations) alone under 5 listing orders, every compatible pair (thorough: permuted too, and every compatible triple), documented spelling equivalences, identity/deep-copy/permuted copies and schema add/drop: the flattened change tree must equal exactly the expected descriptors (path, type, kind bits); RealmDiff/TableDiff must agree and a repeated diff must not change.",
+   "For MySQL, PostgreSQL and SQLite differs in the CLI's normalized mode: every elementary edit of a ~50-edit catalogue (incl. composite foreign-key column permutations) (one per change kind / kind bit the community build emits, plus multi-bit combinations) alone under 5 listing orders, every compatible pair (thorough: permuted too, and every compatible triple), documented spelling equivalences, identity/deep-copy/permuted copies and schema add/drop: the flattened change tree must equal exactly the expected descriptors (path, type, kind bits); RealmDiff/TableDiff must agree and a repeated diff must not change.",
    "Connection-less DefaultDiff (no server): version-dependent behaviour is pinned to what the drivers assume offline."),
  "C03": ("exploration",
    "bounded-exhaustive enumeration of database states on a real SQLite engine; both exports are re-materialised on fresh engines and compared by atlas' differ and by an independent catalogue dump",
@@ -32,7 +32,7 @@ CHECKS = {
    "CLI writers (migrate new/hash/import/diff) are covered by the CLI-driven checks; bodies of sum-ignored files and whitespace-only sum edits are immaterial by design and not judged."),
  "C07": ("exploration",
    "bounded-exhaustive enumeration of adversarial strings x slots x change kinds x formatters x indents x delimiters; each plan of the real planners is formatted, read back with the matching reader and dialect scanner and compared with the planned statements",
-   "Plans of the real MySQL/PostgreSQL/SQLite planners over a two-table schema in which one slot (thorough: every pair of slots) of 11 holds each of 20 adversarial strings, for create/drop/alter/alter-back change sets x 6 formatters x 2 indents x 4 plan delimiters (atlas format): the statements read back with the matching directory reader and the dialect's scanner must equal Plan.Changes[].Cmd in count, order and text, and no text of a comment line may reach a statement.",
+   "Plans of the real MySQL/PostgreSQL/SQLite planners over a two-table schema in which one slot (thorough: every pair of slots) of 11 holds each of 22 adversarial strings (quotes, comment markers, delimiters, LF, CR LF, CR, ...), for create/drop/alter/alter-back change sets x 6 formatters x 2 indents x 4 plan delimiters (atlas format): the statements read back with the matching directory reader and the dialect's scanner must equal Plan.Changes[].Cmd in count, order and text, and no text of a comment line may reach a statement.",
    "The schema shape is fixed (the strings and slots vary); random schemas are not claimed; CLI import is covered by the CLI-driven slice."),
  "C08": ("exploration",
    "bounded-exhaustive enumeration of all token strings up to a length bound and of all generated well-formed scripts, each scanned by the real Scanner and judged by an independent gap lexer / known split",
@@ -56,11 +56,11 @@ CHECKS = {
    "Recording driver/store in process; timestamps and operator version excluded from 'untouched'."),
  "C13": ("fault_enumeration",
    "exhaustive enumeration of failing-statement positions x transaction modes x per-file directives x apply counts on the real CLI and a real SQLite file, judged by a reference model of each mode and by differential full dumps",
-   "`migrate apply`: 5 (thorough 12) directory shapes x a really failing statement at every position x tx-mode file/all/none x txmode directives on the failing or preceding file x apply count: the journal rows written by the statements and the revision rows, read by our own connection, must equal what the mode promises; after repairing the file the full dump must equal that of a run that never failed. `--dry-run` of migrate apply from 5 reached states x modes x counts x baseline/allow-dirty and of schema apply must leave dump and directory byte-identical. `schema apply` plans failing midway on populated data must leave the database unchanged in the default and file modes.",
+   "`migrate apply`: 5 (thorough 12) directory shapes x a really failing statement at every position x tx-mode file/all/none x txmode directives on the failing or preceding file x apply count: the journal rows written by the statements and the revision rows, read by our own connection, must equal what the mode promises; after repairing the file the full dump must equal that of a run that never failed. `--dry-run` of migrate apply from 5 reached states x modes x counts x baseline/allow-dirty and of schema apply must leave dump and directory byte-identical. `schema apply`: 3 hand-written and 24 generated scenarios (every subset of {add table, add column, NOT NULL rebuild, unique index, drop table} holding a change that fails on the data, including plans of a single multi-statement change) x {default, file, none, dry-run}: a plan failing midway must leave the database unchanged in the default and file modes.",
    "SQLite file engine only; statement failure = a statement the engine really rejects."),
  "C14": ("fault_enumeration",
    "exhaustive enumeration of dev-database commands x dev states x failing-statement positions on the real CLI with a SQLite file as dev database; dev dump and directory bytes compared before/after",
-   "Commands migrate diff / validate / lint --latest N and schema apply|diff|inspect with SQL (and HCL) sources x dev state {empty, table with rows, view only, thorough: table+trigger} x directory / schema-file shapes with a really failing statement at every position (and none): a non-empty dev database must be refused and left byte-identical; an empty one must be handed back with no tables, indexes, views or triggers whether the command succeeded or failed; the migration directory must not be written by a replay (migrate diff may add one file and refresh the sum on success).",
+   "Commands migrate diff / validate / lint --latest N and schema apply|diff|inspect with SQL (and HCL) sources x dev state {empty, table with rows, view only, thorough: table+trigger} x directory / schema-file shapes (creating tables, indexes, views and triggers) with a really failing statement at every position (and none): a non-empty dev database must be refused and left byte-identical; an empty one must be handed back with no tables, indexes, views or triggers whether the command succeeded or failed; the migration directory must not be written by a replay (migrate diff may add one file and refresh the sum on success).",
    "SQLite file as dev database; commands that do not use the dev database for a given source (HCL on SQLite) are only required to leave it untouched."),
  "C15": ("exploration",
    "bounded-exhaustive enumeration over the exported type registries x parameter grid and over the differ universe states, each pushed through MarshalHCL/EvalHCL of the real codecs and compared by differ, formatted types, own structural comparison and byte fixpoint",
@@ -72,11 +72,11 @@ CHECKS = {
    "Connection-less DefaultPlan planners; identifier recognition relies on the universe's names being collision-free."),
  "C17": ("exploration",
    "bounded-exhaustive enumeration of plans; reversible ones are executed up and down on a real SQLite engine and the catalogue compared; down files of all formatters compared with the reverse statements",
-   "The C01 pair space x 2 indent settings: Reversible must hold exactly when every schema-changing statement has a reverse, a table rebuild is never reversible, the down part written by each of the 5 third-party formatters equals the reverse statements in reverse change order (per changeset for Liquibase), and for every reversible plan up followed by down on the real engine restores the catalogue and leaves no atlas diff in either direction.",
+   "The C01 pair space x 2 indent settings x desired state {evaluated from HCL, inspected from a live database}: Reversible must hold exactly when every schema-changing statement has a reverse, a table rebuild is never reversible, the down part written by each of the 5 third-party formatters equals the reverse statements in reverse change order (per changeset for Liquibase), and for every reversible plan up followed by down on the real engine restores the catalogue and leaves no atlas diff in either direction.",
    "Engine execution is SQLite only; MySQL/PostgreSQL plans are covered for the flag and down-file parts by the planner-level checks."),
  "C18": ("model_checking",
    "explicit-state BFS over schema-evolution histories (canonical schema model as state); every history is materialised as a migration directory and analysed by the real `atlas migrate lint` against a real SQLite dev database, judged by a reference model of what each file destroys",
-   "BFS to depth 2 (thorough 3) over 13 evolutions (additive, destructive by DROP / ALTER DROP COLUMN / table rebuild, non-destructive rebuilds, virtual-column drop, temporary table/column inside one file, rebuild followed by DROP TABLE, two rebuilds in one file): the last file of each history is hand-written SQL and, where expressible, also produced by the real `atlas migrate diff`; for every --latest N the real lint must exit non-zero with DS102/DS103 positioned on the causing statement for exactly the files inside the window that remove a pre-existing table or non-virtual column, and report no DS1xx elsewhere.",
+   "BFS to depth 2 (thorough 3) over 16 evolutions (additive, destructive by DROP / ALTER DROP COLUMN / table rebuild, a column or table dropped and added back in the same file, non-destructive rebuilds, virtual-column drop, temporary table/column inside one file, rebuild followed by DROP TABLE, two rebuilds in one file): the last file of each history is hand-written SQL and, where expressible, also produced by the real `atlas migrate diff`; for every --latest N the real lint must exit non-zero with DS102/DS103 positioned on the causing statement for exactly the files inside the window that remove a pre-existing table or non-virtual column, and report no DS1xx elsewhere.",
    "SQLite dev database; evolutions are drawn from the stated alphabet (not random schemas)."),
  "C19": ("exploration",
    "bounded-exhaustive enumeration of exclude patterns on a real SQLite engine against a reference of the glob semantics, and of all subsets of skippable change kinds through the three real differs against the filtered unskipped diff",
